@@ -71,7 +71,7 @@ def main(tier, replay):
             scs = [to_scenario(i + 1, h, rng, with_moves=(i % 2 == 0)) for i, h in enumerate(hists)]
         binp = os.path.join(wd, "authh.test")
         vlib.go_test_build("./authh", binp)
-        traces, crashed = vlib.run_test_driver(binp, scs, wd, timeout=300 if tier == "quick" else 2400)
+        traces, crashed = vlib.run_test_driver(binp, scs, wd, timeout=600 if tier == "quick" else 2400)
         sc_by_id = {str(s["id"]): s for s in scs}
         for sid, tail in crashed.items():
             v.violation("crash-%s" % sid, {"scenario": sc_by_id[sid], "what": "crash", "stderr_tail": tail})
